@@ -5,7 +5,7 @@ Require GenProofs_FrameMeas.
 Require Pauli Sem Uniform RefFold Loops.
 Require Import Stab Act Spec SpecProofs GF2 Gen_GateTable Gen_Frame GenProofs_Frame.
 Require GenProofs_TabMeas.
-Require Run FrameRun FrameComplete RunComplete Collapse Refine.
+Require Run FrameRun FrameComplete RunComplete FrameProg Collapse Refine.
 
 (* (1) Tie G: every unitary FrameSimulator routine (translated from frame_simulator.inl) equals the documented gate action
        with the sign dropped, on frames of any size and any target list; every fixed unitary of the table is dispatched
@@ -153,3 +153,30 @@ Theorem C02_frame_sampler_and_tableau_simulator_report_the_same_records :
    (map fst la = map fst l /\ exists s'', Run.sim_run n s la s'')).
 Proof. exact RunComplete.frame_sampler_equals_simulator. Qed.
 Print Assumptions C02_frame_sampler_and_tableau_simulator_report_the_same_records.
+
+(* Adaptive circuits: programs of Clifford steps, Hermitian measurements and Paulis controlled by an earlier result (feedback,
+   resets, MR) or by an external bit that differs between reference and shot (sweep bits; Pauli noise with its fault bits fixed).
+   For every program, every reference run of the simulator under external bits extr, and every external bit vector exta of the
+   shot: the outputs of the frame sampler (initial frame in the group of the initial state, any randomisation bits) are exactly
+   the runs of the same program under exta that the semantics allows. *)
+Theorem C02_frame_sampler_exact_on_adaptive_programs :
+  forall (n : nat) (extr exta : nat -> bool) (prog : list FrameProg.pop) (l la : list (Run.op * option bool))
+         (s s' : (Pauli.pauli -> Pauli.pauli) * (Pauli.pauli -> Pauli.pauli)) (Sg : Sem.state) (rr ra : list bool),
+  Forall (FrameProg.okp n) prog -> Run.good n (fst s) (snd s) -> Run.Inv n (fst s) Sg ->
+  FrameProg.realize extr rr prog l -> Run.sim_run n s l s' ->
+  ((exists g zs, Refine.wf n g /\ Sg g /\ FrameProg.fprun extr exta g rr ra zs prog l = la) <->
+   (FrameProg.realize exta ra prog la /\ exists S', Run.sem_run Sg la S')).
+Proof. exact FrameProg.fp_exact. Qed.
+(* M, R, record-controlled and externally controlled X on qubit q < n are such programs, and the sampler's rule for R leaves no
+   X component of the frame on q (Stim's "clear x, randomise z"). *)
+Theorem C02_stim_instructions_are_programs : forall n k q, q < n ->
+  Forall (FrameProg.okp n) (FrameProg.prog_M n q) /\ Forall (FrameProg.okp n) (FrameProg.prog_R n q) /\
+  Forall (FrameProg.okp n) (FrameProg.prog_CX_rec n k q) /\ Forall (FrameProg.okp n) (FrameProg.prog_CX_ext n k q).
+Proof. exact FrameProg.stim_programs_ok. Qed.
+Theorem C02_reset_rule_clears_the_x_component : forall n q F (z : bool), q < n -> Refine.wf n F ->
+  let F1 := if z then Pauli.pmul F (FrameProg.Zq n q) else F in
+  let F2 := if Sem.acom F (FrameProg.Zq n q) then Pauli.pmul F1 (FrameProg.Xq n q) else F1 in
+  Sem.acom F2 (FrameProg.Zq n q) = false.
+Proof. exact FrameProg.reset_clears_x. Qed.
+Print Assumptions C02_frame_sampler_exact_on_adaptive_programs. Print Assumptions C02_stim_instructions_are_programs.
+Print Assumptions C02_reset_rule_clears_the_x_component.
